@@ -835,3 +835,174 @@ impl Engine for AuthEngine {
         ]
     }
 }
+
+// ------------------------------------------------------------------------------------ wiring
+
+/// One connection attempt against the real server: (port: 0 client / 1 worker, roles: 0 the HQ
+/// client pair / 1 the worker pair, key: 0 client key / 1 worker key / 2 another key / 3 none,
+/// protocol number).
+pub type WireAttempt = (u8, u8, u8, u32);
+
+pub struct WireResult {
+    /// (attempt, accepted on the connecting side)
+    pub attempts: Vec<(WireAttempt, bool)>,
+    pub skipped: Option<String>,
+}
+
+fn wire_expected(a: &WireAttempt) -> bool {
+    matches!(a, (0, 0, 0, 0) | (1, 1, 1, 0))
+}
+
+/// How HyperQueue wires keys, roles and the protocol number into the handshake: the real
+/// server (`init_hq_server`) is started with two different keys and every combination of
+/// port x role pair x key x protocol number is tried as a connecting peer (exhaustive, 32
+/// attempts). Only the two matching combinations may be accepted.
+pub fn wire_phase(only: Option<WireAttempt>) -> WireResult {
+    use hyperqueue::client::globalsettings::GlobalSettings;
+    use hyperqueue::client::output::quiet::Quiet;
+    use hyperqueue::common::serverdir::ServerDir;
+    use hyperqueue::server::bootstrap::{ServerConfig, get_client_session, init_hq_server};
+    let dir = crate::sim::thread_dir().join("wire-server-dir");
+    let _ = std::fs::remove_dir_all(&dir);
+    if let Err(e) = std::fs::create_dir_all(&dir) {
+        return WireResult { attempts: Vec::new(), skipped: Some(format!("{e:?}")) };
+    }
+    let ck = Arc::new(SecretKey::from_slice(&[21u8; 32]).unwrap());
+    let wk = Arc::new(SecretKey::from_slice(&[22u8; 32]).unwrap());
+    let other = Arc::new(SecretKey::from_slice(&[23u8; 32]).unwrap());
+    let h = std::thread::Builder::new()
+        .stack_size(32 << 20)
+        .spawn(move || -> WireResult {
+            let rt = match tokio::runtime::Builder::new_current_thread().enable_all().build() {
+                Ok(rt) => rt,
+                Err(e) => return WireResult { attempts: Vec::new(), skipped: Some(format!("{e:?}")) },
+            };
+            let local = tokio::task::LocalSet::new();
+            rt.block_on(local.run_until(async move {
+                let gsettings = GlobalSettings::new(dir.clone(), Box::new(Quiet));
+                let cfg = ServerConfig {
+                    worker_host: "localhost".to_string(),
+                    client_host: "localhost".to_string(),
+                    idle_timeout: None,
+                    client_port: None,
+                    worker_port: None,
+                    journal_path: None,
+                    journal_flush_period: Duration::from_secs(30),
+                    worker_secret_key: Some(wk.clone()),
+                    client_secret_key: Some(ck.clone()),
+                    server_uid: None,
+                    scheduler_mip_time_limit: Duration::from_secs(5),
+                };
+                let server = init_hq_server(&gsettings, cfg);
+                let client = async {
+                    // wait for the access file
+                    let mut ports = None;
+                    for _ in 0..200 {
+                        if let Ok(sd) = ServerDir::open(&dir) {
+                            if let (Ok(c), Ok(w)) =
+                                (sd.read_client_access_record(), sd.read_worker_access_record())
+                            {
+                                ports = Some((c.client.port, w.worker.port));
+                                break;
+                            }
+                        }
+                        tokio::time::sleep(Duration::from_millis(25)).await;
+                    }
+                    if std::env::var("VERIF_DEBUG_WIRE").is_ok() {
+                        eprintln!("wire ports {ports:?} dir {}", dir.display());
+                    }
+                    let Some((cport, wport)) = ports else {
+                        return WireResult { attempts: Vec::new(), skipped: Some("no access file".into()) };
+                    };
+                    let mut attempts = Vec::new();
+                    let mut skipped = None;
+                    'outer: for port in 0..2u8 {
+                        for roles in 0..2u8 {
+                            for key in 0..4u8 {
+                                for protocol in 0..2u32 {
+                                    let a: WireAttempt = (port, roles, key, protocol);
+                                    if only.is_some_and(|o| o != a) {
+                                        continue;
+                                    }
+                                    let addr = format!("127.0.0.1:{}", if port == 0 { cport } else { wport });
+                                    let stream = match tokio::net::TcpStream::connect(&addr).await {
+                                        Ok(s) => s,
+                                        Err(e) => {
+                                            skipped = Some(format!("connect {addr}: {e:?}"));
+                                            break 'outer;
+                                        }
+                                    };
+                                    // the framing of tako's transport (little endian length prefix)
+                                    let (mut w, mut r) = tokio_util::codec::LengthDelimitedCodec::builder()
+                                        .little_endian()
+                                        .max_frame_length(128 * 1024 * 1024)
+                                        .new_framed(stream)
+                                        .split();
+                                    let (mine, peer): (&'static str, &'static str) = if roles == 0 {
+                                        ("hq-client", "hq-server")
+                                    } else {
+                                        ("worker", "server")
+                                    };
+                                    let k = match key {
+                                        0 => Some(ck.clone()),
+                                        1 => Some(wk.clone()),
+                                        2 => Some(other.clone()),
+                                        _ => None,
+                                    };
+                                    let res = tokio::time::timeout(
+                                        Duration::from_secs(20),
+                                        tako::comm::do_authentication(protocol, mine, peer, k, &mut w, &mut r),
+                                    )
+                                    .await;
+                                    if std::env::var("VERIF_DEBUG_WIRE").is_ok() {
+                                        eprintln!("wire attempt {a:?}: {:?}", res.as_ref().map(|r| r.as_ref().map(|_| "ok").map_err(|e| format!("{e:?}"))));
+                                    }
+                                    attempts.push((a, matches!(res, Ok(Ok(_)))));
+                                }
+                            }
+                        }
+                    }
+                    // stop the server through the real client path
+                    if let Ok(mut session) = get_client_session(&dir).await {
+                        let _ = hyperqueue::client::server::client_stop_server(session.connection()).await;
+                    } else if skipped.is_none() {
+                        skipped = Some("no client session for stopping the server".into());
+                    }
+                    WireResult { attempts, skipped }
+                };
+                match tokio::time::timeout(Duration::from_secs(120), async { tokio::join!(server, client) }).await {
+                    Ok((_s, c)) => c,
+                    Err(_) => WireResult { attempts: Vec::new(), skipped: Some("timeout".into()) },
+                }
+            }))
+        });
+    match h.map(|h| h.join()) {
+        Ok(Ok(r)) => r,
+        _ => WireResult { attempts: Vec::new(), skipped: Some("wiring phase thread failed".into()) },
+    }
+}
+
+/// Returns a violation (signature, detail, attempt) if an attempt was decided wrongly.
+pub fn wire_verdict(r: &WireResult) -> Option<(String, String, WireAttempt)> {
+    for (a, ok) in &r.attempts {
+        if *ok != wire_expected(a) {
+            let what = format!(
+                "port {} roles {} key {} protocol {}",
+                if a.0 == 0 { "client" } else { "worker" },
+                if a.1 == 0 { "hq-client/hq-server" } else { "worker/server" },
+                ["client key", "worker key", "another key", "no key"][a.2 as usize],
+                a.3
+            );
+            return Some((
+                if *ok {
+                    "real server accepted a connection with the wrong key, role or protocol".to_string()
+                } else {
+                    "real server refused a connection with the matching key, role and protocol".to_string()
+                },
+                what,
+                *a,
+            ));
+        }
+    }
+    None
+}
